@@ -498,12 +498,15 @@ def enabled_events(h: Harness, calls, rank, started):
     return en
 
 
-def encode_obs(obs, rank) -> list:
+def encode_obs(obs, rank, listeners=False) -> list:
     out = []
     sv = state_values()
     for o in obs:
         if o[0] == 'E':
-            out += [0, sv[o[1]], sv[o[2]]]
+            if listeners:
+                out += [2, o[5] if len(o) > 5 else 0, sv[o[1]], sv[o[2]]]
+            else:
+                out += [0, sv[o[1]], sv[o[2]]]
         else:
             r = o[2]
             out += [1, rank[o[1]], 1 if r == ('ret', True) else (0 if r == ('ret', False) else 7)]
@@ -525,7 +528,7 @@ def fingerprint(ll) -> int:
     return h
 
 
-KIND = {'seq': 0, 'out': 1, 'flat': 2}
+KIND = {'seq': 0, 'out': 1, 'flat': 2, 'lout': 3}
 
 
 def sched_number(events) -> int:
